@@ -383,6 +383,73 @@ func c04Match(c c04Case, seen map[int][][]byte, want [][]int) (string, string) {
 	return "", ""
 }
 
+// c04Sequential: connections that follow one another on one acceptor.  The first peer stops reading while messages
+// for it are queued (its connection ends when the write deadline passes); the second connection gets nothing of
+// what was meant for the first, and its handler none of the first one's inbound messages.
+func c04Sequential(c c04Case, obs *c04Obs) {
+	*obs = c04Obs{seen: map[int][][]byte{}}
+	cnA, cnB := newConn(0), newConn(1)
+	cnA.blockW = true
+	l := &slistener{}
+	var sends []func([]byte) error
+	a := simplefixgo.NewAcceptor(l, simplefixgo.NewAcceptorHandlerFactory("35", c.Buf), 5*time.Second, func(h simplefixgo.AcceptorHandler) {
+		my := len(sends)
+		sends = append(sends, h.SendRaw)
+		h.HandleIncoming(simplefixgo.AllMsgTypes, func(m []byte) bool {
+			obs.seen[my] = append(obs.seen[my], append([]byte{}, m...))
+			return true
+		})
+	})
+	go func() { obs.serveErr = a.ListenAndServe(); obs.served = true }()
+	l.q = append(l.q, cnA)
+	vsched.Settle()
+	if len(sends) != 1 {
+		obs.notes = "setup: first connection not accepted"
+		return
+	}
+	for i := 0; i < 3; i++ {
+		i := i
+		go func() { _ = sends[0](rawFrom("SELF", "PEER-A", "D", i+1, fmt.Sprintf("11=for-the-first-peer-%d", i))) }()
+	}
+	cnA.feed(c04Pool()[0])
+	time.Sleep(12 * time.Second) // the write deadline (5 s) passes: the first connection is torn down
+	vsched.Settle()
+	l.q = append(l.q, cnB)
+	vsched.Settle()
+	cnB.feed(c04Pool()[1])
+	time.Sleep(2 * time.Second)
+	vsched.Settle()
+	obs.stream = append([]byte{}, cnB.stream()...)
+	obs.closed = []bool{cnA.closed, cnB.closed}
+	a.Close()
+	time.Sleep(10 * time.Second)
+	vsched.Settle()
+}
+
+func c04CheckSequential(c c04Case, obs *c04Obs) (string, string) {
+	if obs.notes != "" {
+		return "setup", obs.notes
+	}
+	if len(obs.stream) != 0 {
+		return "cross-talk:outbound", fmt.Sprintf("the second connection was sent %d bytes nobody sent on it: %s", len(obs.stream), show(obs.stream[:min(len(obs.stream), 200)]))
+	}
+	pool := c04Pool()
+	if len(obs.seen[1]) != 1 || !bytes.Equal(obs.seen[1][0], pool[1]) {
+		return "cross-talk:inbound", fmt.Sprintf("the second connection's handler saw %d message(s), first %q", len(obs.seen[1]), showFirst(obs.seen[1]))
+	}
+	if len(obs.closed) == 2 && !obs.closed[0] {
+		return "sequential:first-connection-not-closed", ""
+	}
+	return "", ""
+}
+
+func showFirst(ms [][]byte) string {
+	if len(ms) == 0 {
+		return ""
+	}
+	return show(ms[0])
+}
+
 // ---- outbound ----
 
 type rawMsg struct {
@@ -638,6 +705,8 @@ func c04ScenarioOf(c c04Case, delay bool, bound int) *schedScenario {
 			c04OutboundBurst(c, &obs)
 		case "inbound-stop":
 			c04InboundStop(c, &obs)
+		case "sequential":
+			c04Sequential(c, &obs)
 		default:
 			c04Inbound(c, &obs)
 		}
@@ -652,6 +721,8 @@ func c04ScenarioOf(c c04Case, delay bool, bound int) *schedScenario {
 			return c04CheckBurst(c, &obs)
 		case "inbound-stop":
 			return c04CheckStop(c, &obs)
+		case "sequential":
+			return c04CheckSequential(c, &obs)
 		}
 		return c04CheckInbound(c, &obs)
 	}
@@ -859,6 +930,12 @@ func runC04(R *vlib.Out) {
 			}
 		}
 		if role == "acc" {
+			// one connection after another
+			for _, buf := range []int{1, 10} {
+				if !runDefault(c04Case{Role: role, Buf: buf, Mode: "sequential"}) {
+					goto done
+				}
+			}
 			// two simultaneous connections with different message sequences
 			for _, buf := range []int{0, 10} {
 				for _, pr := range [][2][]int{{{0, 1}, {2, 4}}, {{1, 2, 0}, {0}}, {{4}, {1, 1}}} {
